@@ -293,7 +293,7 @@ type c15Case struct {
 }
 
 var c15PH = []any{"s", "<Any value>", strings.Repeat("long-placeholder-", 4), 7, nil, map[string]any{"k": 1}, []any{1, "x"}, true, "with \"quotes\" and \n newline",
-	"true", "null", "123", "1.5", "~", "", "- x", "k: v", "# c", "é «x»", "*a", "&a", "[x]", "{x}", "'q'", " lead", "trail ", "a: b: c", "|", ">", "%", "@",
+	"true", "null", "123", "1.5", "~", "", "- x", "k: v", "# c", "é «x»", "*a", "&a", "[x]", "{x}", "'q'", " lead", "trail ", "a: b: c", "|", ">", "%", "@", "a, b", "x]y", "k}", "tab\there",
 	// JSON only (c15PHJSONOnly): control characters, DEL, a non-printable rune beyond the BMP, a cut-off multi-byte rune
 	"\x1b[0m esc", "nul\x00byte", "del\x7f", "vt\v ff\f bs\b", "tag\U000e0001", "caf\xc3"}
 
@@ -580,6 +580,10 @@ func c15Run(c *vfCtx, cs c15Case) {
 	}
 	if s, isStr := c15PH[cs.PH].(string); cs.Lang == "yaml" && class == "" && isStr && strings.HasPrefix(s, "- ") && cs.Kind != "anymulti" && cs.Kind != "typemulti" {
 		class = "K12-yaml-placeholder-dash-not-quoted"
+	}
+	if s, isStr := c15PH[cs.PH].(string); cs.Lang == "yaml" && class == "" && isStr && (strings.Contains(s, "\t") || strings.ContainsAny(s, ",]}") && strings.ContainsAny(cs.Doc, "[{")) && cs.Kind != "anymulti" && cs.Kind != "typemulti" {
+		// a tab anywhere; a comma or a closing bracket/brace where the document has flow collections
+		class = "K17-yaml-placeholder-not-quoted-where-needed"
 	}
 	var path string
 	if cs.Lang == "json" {
